@@ -33,8 +33,10 @@ MixKey(st, ikm)   == [st EXCEPT !.ck = HkdfOut1(st.ck, ikm), !.k = HkdfOut2(st.c
 
 \* EncryptAndHash / DecryptAndHash with a key present (always the case in X after "es").
 EncryptAndHash(st, pt) ==
-  LET c == Aead(st.k, NonceBytes(st.n), st.h, pt)
-  IN [st |-> [MixHash(st, c) EXCEPT !.n = st.n + 1], out |-> c]
+  IF st.k = NoKey
+  THEN [st |-> MixHash(st, pt), out |-> pt]     \* no key yet: the Noise rule sends the plaintext as it is
+  ELSE LET c == Aead(st.k, NonceBytes(st.n), st.h, pt)
+       IN [st |-> [MixHash(st, c) EXCEPT !.n = st.n + 1], out |-> c]
 DecryptAndHash(st, c) ==
   LET p == Open(st.k, NonceBytes(st.n), st.h, c)
   IN [st |-> [MixHash(st, c) EXCEPT !.n = st.n + 1], out |-> p]
@@ -71,7 +73,8 @@ WTok(hs, tok) == IF ~hs.ok THEN hs
                         [] tok = "s"  -> WTokS(hs)
                         [] tok = "ss" -> WTokSS(hs)
 
-PatternX == <<"e", "es", "s", "ss">>
+PatternX == IF Deviation = "StaticKeyInClear" THEN <<"e", "s", "es", "ss">>   \* deviation: s before es
+            ELSE <<"e", "es", "s", "ss">>
 
 RECURSIVE WRun(_, _)
 WRun(hs, toks) == IF toks = <<>> THEN hs ELSE WRun(WTok(hs, Head(toks)), Tail(toks))
